@@ -23,17 +23,20 @@ Definition var_role_ok (v : pkg_var) : bool :=
   (* the stringer index table *)
   || (String.eqb (pv_name v) "_Language_index" && nowrites).
 
-Definition inventory_ok : bool := forallb var_role_ok pkg_vars && negb pkg_has_init_func.
+Definition inventory_ok : bool :=
+  forallb var_role_ok pkg_vars && negb pkg_has_init_func && match pkg_env_reads with [] => true | _ => false end.
 
 Lemma inventory_ok_holds : inventory_ok = true.
 Proof. vm_compute. reflexivity. Qed.
 
 (* the default randomness source: initialised to crypto/rand.Reader, never reassigned in a guard-off
-   build, no init() function, no math/rand import; it is the reader passed to io.ReadFull *)
+   build, no init() function, no math/rand import, no
+   environment variable is read by the package; it is the reader passed to io.ReadFull *)
 Definition default_source_ok : bool :=
   existsb (fun v => String.eqb (pv_name v) readfull_src && String.eqb (pv_init v) "crypto/rand.Reader"
                     && match pv_writes v with [] => true | _ => false end) pkg_vars
   && negb pkg_has_init_func
+  && match pkg_env_reads with [] => true | _ => false end
   && negb (existsb (fun i => String.eqb i "math/rand" || String.eqb i "math/rand/v2") pkg_imports)
   && body_NewMnemonic_read_ok.
 
